@@ -157,6 +157,25 @@ func c12One(run *hx.Run, data []byte, o op, pi int, dbname string, maxR int64) {
 				run.Count("fault_not_reached", 1)
 				continue
 			}
+			// the fault was one-shot: the SAME handle must recover - a second run without a fault returns the
+			// complete result or an error, never a silently different result (e.g. from a half-filled cache)
+			if k%3 == 0 || R < 60 {
+				again := o.run(h, 0)
+				run.Eval(1)
+				if again.panicMsg != "" {
+					run.Violation(fmt.Sprintf("C12/%s/%s/second-run-%s", o.kind, map[bool]string{false: "ioerror", true: "shortread"}[short], pmKind(again.panicMsg)), fmt.Sprintf("%s: second run after a fault at read %d: %s", o.name, k, firstLines(again.panicMsg, 2)), nil)
+				} else if again.err == nil {
+					if len(again.rows) != len(ref.rows) {
+						run.Violation(fmt.Sprintf("C12/%s/second-run-silently-wrong", o.kind), fmt.Sprintf("%s on %s: after a one-shot fault at page read %d of %d (reported: %v), running the operation again on the same handle returns err=nil with %d rows; the fault-free result has %d", o.name, dbname, k, R, res.err, len(again.rows), len(ref.rows)), nil)
+					} else if pre, at := isPrefix(again.rows, ref.rows); !pre {
+						run.Violation(fmt.Sprintf("C12/%s/second-run-silently-wrong", o.kind), fmt.Sprintf("%s: second run after a fault at read %d differs from the fault-free result at row %d", o.name, k, at), nil)
+					} else {
+						run.See("second_run", "complete")
+					}
+				} else {
+					run.See("second_run", "error: "+clip(again.err.Error(), 40))
+				}
+			}
 			run.DistinctN(1)
 			detail := hx.M{"db": dbname, "op": o.name, "k": k, "reads_fault_free": R, "fault": fk, "rows_fault_free": len(ref.rows), "rows_delivered": len(res.rows)}
 			key := fmt.Sprintf("C12/%s/%s", o.kind, fk)
